@@ -222,7 +222,7 @@ def run(eng, R):
             for st in fn.node.body:
                 for n in ast.walk(st):
                     if isinstance(n, ast.If):
-                        fl = self_attr(n.test)
+                        fl = self_attr(common.resolve_local(fn.node, n.test))   # (the flag may be held in a local)
                         if fl in ("_add_constraint_cost", "_add_determinant_cost"):
                             # `x = x[:-k]` on the argument list (whatever the local holding it is called)
                             sl = [s for s in ast.walk(n) if isinstance(s, ast.Assign) and isinstance(s.value, ast.Subscript) and isinstance(s.value.slice, ast.Slice)
